@@ -217,6 +217,14 @@ KERNELS = [
     dict(name='validateBranch', file='torf/_torrent.py', func='Torrent.validate', pick=('if-chain-branch', "len(info['pieces']) == 0"),
          atoms={"len(info['pieces'])": 'plen', "'length' in info": 'has_length', "'files' in info": 'has_files'},
          params=[('plen', 'Int'), ('has_length', 'Bool'), ('has_files', 'Bool')], ret='Int'),
+    # --- _iter_from_file_handle (C01): how many bytes are read to fill the piece carried over from the previous file, and
+    #     when a slice of the carried-over bytes counts as a complete piece
+    dict(name='carryFillSize', file='torf/_stream.py', func='TorrentFileStream._iter_from_file_handle',
+         pick=('kwarg-containing', 'size', 'len(piece)'), atoms={'len(piece)': 'carried'},
+         params=[('piece_size', 'Int'), ('carried', 'Int')], ret='Int'),
+    dict(name='carryComplete', file='torf/_stream.py', func='TorrentFileStream._iter_from_file_handle',
+         pick=('if-test-containing', 'len(piece) == piece_size'), atoms={'len(piece)': 'carried'},
+         params=[('carried', 'Int'), ('piece_size', 'Int')], ret='Bool'),
     # --- the parameter tables of magnet URIs (C13): literal tuples of names; an element that is itself a tuple
     #     contributes its first component
     dict(name='magnetKnownParameters', kind='strings', file='torf/_magnet.py', func='Magnet',
@@ -268,6 +276,13 @@ KERNELS = [
     dict(name='validateKeys', kind='keys', file='torf/_torrent.py', func='Torrent.validate'),
     dict(name='readStreamKeys', kind='keys', file='torf/_torrent.py', func='Torrent.read_stream'),
 ]
+
+
+LEAN_KEYWORDS = {'have', 'show', 'from', 'fun', 'let', 'in', 'at', 'do', 'then', 'else', 'if', 'match', 'with', 'end', 'open',
+                 'def', 'theorem', 'by', 'where', 'structure', 'class', 'instance', 'meta', 'import', 'namespace', 'section', 'variable'}
+for _k in KERNELS:
+    for _n, _t in _k.get('params', []):
+        assert _n not in LEAN_KEYWORDS, f'kernel {_k["name"]}: parameter name {_n} is a Lean keyword'
 
 
 class CannotTranslate(Exception):
@@ -398,6 +413,12 @@ def _pick(fn, pick):
         hits = [k.value for n in ast.walk(fn) if isinstance(n, ast.Call) for k in n.keywords if k.arg == pick[1]]
         if not hits or len({ast.dump(h) for h in hits}) != 1:
             raise CannotTranslate(f'keyword argument {pick[1]} not found uniquely')
+        return hits[0]
+    if kind == 'kwarg-containing':
+        hits = [k.value for n in ast.walk(fn) if isinstance(n, ast.Call) for k in n.keywords
+                if k.arg == pick[1] and pick[2] in ast.unparse(k.value)]
+        if not hits or len({ast.dump(h) for h in hits}) != 1:
+            raise CannotTranslate(f'keyword argument {pick[1]} containing {pick[2]} not found uniquely')
         return hits[0]
     if kind == 'return':
         hits = [n for n in ast.walk(fn) if isinstance(n, ast.Return)]
